@@ -55,7 +55,7 @@ def queries(ctx):
         else:
             ns = tuple(range(1, 18))
         ovls = {1: (0, 1, 2), 2: (0,), 3: (0, 1), 4: (0, 1), 5: (0, 1), 6: (0, 1, 2), 7: (0, 1), 8: (0, 1, 2, 3)}[cls]
-        vector = bool(re.search(r"\bvr\[", src))          # kernel uses vector moves: its alignment prologue depends on the destination address
+        vector = bool(re.search(r"\b[xy]mm\d+\b", txt, re.I))          # kernel uses vector registers: its alignment prologue depends on the destination address
         if vector:
             ns = tuple(ns) + ((16, 19) if quick else (20, 32, 35))      # the 16-limb main loop of the vector copy kernels
         for n in ns:
